@@ -13,7 +13,8 @@ def main():
         # the same layouts under an affine embedding of positions (resolutions scale with it: exact)
         emb = make_cases(beh[::5], "bb", sizes, run, zq=0, k0=k0)
         for k, c in enumerate(emb):
-            c["scale"] = [7, 1000, 65536][k % 3]
+            # the last one puts positions beyond 2^31 and zoom-record ends beyond 2^32 (a power of two: f32 statistics stay exact)
+            c["scale"] = [7, 1000, 65536, 2 ** 29 if max(c["chroms"]) <= 7 else 2 ** 28][k % 4]
         return cases + emb
     # automatic zoom ladders need inputs large enough for a level to be kept (levels are pruned by size):
     # longer seeded inputs, small items_per_slot, initial zoom size 10 or 160, single and two pass
